@@ -124,19 +124,17 @@ where
     }
 
     fn size_hint(&self) -> (usize, Option<usize>) {
-        match &self.stream {
-            Some(s) => {
-                let queue_len = self.in_progress_queue.len();
-                let (lower, upper) = s.size_hint();
-                let lower = lower.saturating_add(queue_len);
-                let upper = match upper {
-                    Some(x) => x.checked_add(queue_len),
-                    None => None,
-                };
-                (lower, upper)
-            }
-            _ => (0, Some(0)),
-        }
+        let queue_len = self.in_progress_queue.len();
+        let (lower, upper) = match &self.stream {
+            Some(s) => s.size_hint(),
+            None => (0, Some(0)),
+        };
+        let lower = lower.saturating_add(queue_len);
+        let upper = match upper {
+            Some(x) => x.checked_add(queue_len),
+            None => None,
+        };
+        (lower, upper)
     }
 }
 
@@ -192,19 +190,17 @@ where
     }
 
     fn size_hint(&self) -> (usize, Option<usize>) {
-        match &self.stream {
-            Some(s) => {
-                let queue_len = self.in_progress_queue.len();
-                let (lower, upper) = s.size_hint();
-                let lower = lower.saturating_add(queue_len);
-                let upper = match upper {
-                    Some(x) => x.checked_add(queue_len),
-                    None => None,
-                };
-                (lower, upper)
-            }
-            _ => (0, Some(0)),
-        }
+        let queue_len = self.in_progress_queue.len();
+        let (lower, upper) = match &self.stream {
+            Some(s) => s.size_hint(),
+            None => (0, Some(0)),
+        };
+        let lower = lower.saturating_add(queue_len);
+        let upper = match upper {
+            Some(x) => x.checked_add(queue_len),
+            None => None,
+        };
+        (lower, upper)
     }
 }
 
